@@ -211,6 +211,15 @@ func runBinders(p *Program, r *RuleResult) {
 					}
 				}
 			}
+			// … or through a helper that inserts the name it is handed
+			for _, c := range p.callsIn(m.Fn) {
+				if _, ni, _, ok := p.ctxInsertHelper(c.Common().StaticCallee()); ok && ni < len(c.Common().Args) {
+					ap := accessPath(c.Common().Args[ni])
+					if strings.HasPrefix(ap, trecv+".") {
+						fb.typeBinds[strings.TrimPrefix(ap, trecv+".")] = true
+					}
+				}
+			}
 			for _, k := range m.Conts {
 				for _, a := range k.Common().Args {
 					if isNameType(a.Type()) && isPtr(a.Type()) {
@@ -473,6 +482,14 @@ func runBinderInstantiated(p *Program, r *RuleResult) {
 					if strings.HasSuffix(k, ".Ident") {
 						binders[lastSeg(strings.TrimSuffix(k, ".Ident"))] = true
 					}
+				}
+			}
+		}
+		// … or handed to a helper that inserts them
+		for _, c := range p.callsIn(m.Fn) {
+			if _, ni, _, ok := p.ctxInsertHelper(c.Common().StaticCallee()); ok && ni < len(c.Common().Args) {
+				if k := accessPath(c.Common().Args[ni]); k != "" {
+					binders[lastSeg(k)] = true
 				}
 			}
 		}
